@@ -88,7 +88,7 @@ theorem localOK_parameter (T : Table) (o : Opts) (a : Attrs) (kids : List (Strin
     localOK T o (.node .parameter a kids) vs = rulesOK o (.node .parameter a kids) := by
   have hx := checkExt_eq T o (.node .parameter a kids) hT (by simp [extKinds, Doc.kind])
   obtain ⟨h1, h2⟩ := exampleChecks T o a .parameter hT (by simp [exampleKinds])
-  simp (disch := decide) only [localOK, rulesOK, violations, Doc.kind, Doc.attrs, parameterOKCode, exampleViols, List.all_append, all_when,
+  simp (disch := decide) only [localOK, localOKp, rulesOK, violations, Doc.kind, Doc.attrs, parameterOKCode, exampleViols, List.all_append, all_when,
     extra_all, hx, enabled_plain]
   simp only [enabled]
   by_cases c1 : a.str "name" = ""
